@@ -89,7 +89,17 @@ pub fn gen_trailers(rng: &mut Rng) -> Vec<(String, Vec<u8>)> {
         if v.is_empty() || v.contains('\r') {
             v = "v".into();
         }
-        t.push((k, v.into_bytes()));
+        let mut vb = v.into_bytes();
+        // header values may carry opaque octets (obs-text, 0x80..=0xff): a trailer value is bytes,
+        // not text
+        if rng.chance(1, 6) {
+            let at = rng.usize_below(vb.len() + 1);
+            vb.insert(at, 0x80 + rng.below(0x80) as u8);
+            if rng.bool() {
+                vb.push(0xff);
+            }
+        }
+        t.push((k, vb));
     }
     if rng.chance(1, 3) {
         let j = rng.usize_below(t.len());
